@@ -4,6 +4,7 @@ import (
 	"context"
 	_ "embed"
 	"errors"
+	"fmt"
 	"sync"
 
 	"github.com/jig/lisp/lib/call"
@@ -24,8 +25,8 @@ func Load(env types.EnvType) {
 	call.CallOverrideFN(env, "reset!", reset_BANG)
 	call.Call(env, future_call)
 	call.Call(env, future_cancel)
-	call.CallOverrideFN(env, "future-cancelled?", func(f *Future) (bool, error) { return f.Cancelled, nil })
-	call.CallOverrideFN(env, "future-done?", func(f *Future) (bool, error) { return f.Done, nil })
+	call.CallOverrideFN(env, "future-cancelled?", func(f *Future) (bool, error) { return f.IsCancelled(), nil })
+	call.CallOverrideFN(env, "future-done?", func(f *Future) (bool, error) { return f.IsDone(), nil })
 	call.CallOverrideFN(env, "future?", func(f MalType) (bool, error) { return Q[*Future](f), nil })
 	call.Call(env, new_future_call)
 }
@@ -125,11 +126,13 @@ func (a *Atom) LispPrint(pr_str func(MalType, bool) string) string {
 
 // Future
 type Future struct {
-	ValChan    chan MalType
-	ErrChan    chan error
+	mu         sync.Mutex
+	done       chan struct{} // closed once the outcome (res, err) is available
+	res        MalType
+	err        error
+	completed  bool // the body has finished (normally or not)
+	cancelled  bool // future-cancel won against completion
 	CancelFunc context.CancelFunc
-	Done       bool
-	Cancelled  bool
 
 	Fn     MalFunc
 	Meta   MalType
@@ -143,43 +146,66 @@ func new_future_call(fn MalFunc) (*Future, error) {
 func NewFuture(ctx context.Context, fn MalFunc) *Future {
 	ctx, cancel := context.WithCancel(ctx)
 	f := &Future{
-		ValChan:    make(chan MalType, 1),
-		ErrChan:    make(chan error, 1),
+		done:       make(chan struct{}),
 		CancelFunc: cancel,
 		Fn:         fn,
 	}
 	go func() {
-		defer func() { f.Done = true }()
-		res, err := Apply(ctx, fn, nil)
-		if err != nil {
-			f.ErrChan <- err
-			return
-		}
-		f.ValChan <- res
+		var res MalType
+		var err error
+		func() {
+			defer func() {
+				// a panic on this goroutine would take the whole host process down
+				if r := recover(); r != nil {
+					res, err = nil, fmt.Errorf("panic in future: %v", r)
+				}
+			}()
+			res, err = Apply(ctx, fn, nil)
+		}()
+		f.mu.Lock()
+		f.res, f.err = res, err
+		f.completed = true
+		f.mu.Unlock()
+		close(f.done)
 	}()
 
 	return f
 }
 
+// Cancel cancels the body's context if the future has not completed yet.
+// It reports whether the future is (now or already) cancelled.
 func (f *Future) Cancel() bool {
-	if !f.Done {
-		f.Cancelled = true
-		f.Done = true
+	f.mu.Lock()
+	defer f.mu.Unlock()
+	if !f.completed && !f.cancelled {
+		f.cancelled = true
 		f.CancelFunc()
 	}
-	return f.Cancelled
+	return f.cancelled
+}
+
+// IsDone reports whether the future has completed or has been cancelled.
+func (f *Future) IsDone() bool {
+	f.mu.Lock()
+	defer f.mu.Unlock()
+	return f.completed || f.cancelled
+}
+
+// IsCancelled reports whether the future was cancelled before it completed.
+func (f *Future) IsCancelled() bool {
+	f.mu.Lock()
+	defer f.mu.Unlock()
+	return f.cancelled
 }
 
 func (f *Future) Deref(ctx context.Context) (MalType, error) {
 	select {
 	case <-ctx.Done():
 		return nil, errors.New("timeout while dereferencing future")
-	case err := <-f.ErrChan:
-		f.ErrChan <- err
-		return nil, err
-	case res := <-f.ValChan:
-		f.ValChan <- res
-		return res, nil
+	case <-f.done:
+		f.mu.Lock()
+		defer f.mu.Unlock()
+		return f.res, f.err
 	}
 }
 
